@@ -58,7 +58,8 @@ type OpResult struct {
 	Done       bool            `json:"done"` // returned within the budget
 	Status     int             `json:"status"`
 	Location   string          `json:"location,omitempty"`
-	Ref        string          `json:"ref,omitempty"` // reference used (update/release) or obtained (create)
+	Ref        string          `json:"ref,omitempty"` // reference used (update/release) or obtained (create), in canonical (URI-decoded) form: what the records carry
+	RefWire    string          `json:"ref_wire,omitempty"` // the same reference as the text that followed the last "/" of the Location header
 	RespBody   string          `json:"resp_body,omitempty"`
 	ISN        int32           `json:"isn"`
 	RespISN    *int32          `json:"resp_isn,omitempty"`
@@ -277,7 +278,7 @@ func Run(sc *Scenario) *History {
 	}
 	h.SimEndNs = rt.Now()
 	h.Msgs = w.Net.Msgs()
-	h.Journal = rt.Journal()
+	h.Journal = rt.JournalOf(".cdr")
 	h.Notifs = w.NotifsCopy()
 	h.Fired = w.Net.Fired()
 	if w.FTP != nil {
@@ -383,6 +384,15 @@ func (r *runner) nextISN() int32 {
 }
 
 // resolveRef returns the session reference an update/release should address.
+// canonRef is the reference a URI path segment denotes (an implementation may or may not
+// percent-encode the reference it puts into the Location header).
+func canonRef(wire string) string {
+	if u, err := url.PathUnescape(wire); err == nil {
+		return u
+	}
+	return wire
+}
+
 func (r *runner) resolveRef(op *Op) (string, bool) {
 	switch {
 	case op.RefMode == "" || op.RefMode == "stale":
@@ -607,7 +617,7 @@ func (r *runner) execOp(t *rt.Task, op *Op) *OpResult {
 			res.StartNs, res.EndNs = rt.Now(), rt.Now()
 			return res
 		}
-		res.Ref = ref
+		res.Ref, res.RefWire = canonRef(ref), ref
 		method, path = "POST", basePath+"/chargingdata/"+ref+"/"+op.Kind
 		body = r.buildBody(op, res)
 	case "recharge":
@@ -646,7 +656,7 @@ func (r *runner) execOp(t *rt.Task, op *Op) *OpResult {
 		}
 	}
 	res.PreNotifs = r.w.NotifCount()
-	res.PreWrites = rt.JournalLen()
+	res.PreWrites = rt.JournalLenOf(".cdr")
 	res.StartNs = rt.Now()
 	t.Log(fmt.Sprintf("start op%d %s", op.ID, op.Kind))
 
@@ -752,7 +762,7 @@ func (r *runner) execOp(t *rt.Task, op *Op) *OpResult {
 				b.ref = res.Location[i+1:]
 				b.supi = op.Supi
 				b.ok = true
-				res.Ref = b.ref
+				res.Ref, res.RefWire = canonRef(b.ref), b.ref
 			}
 			close(b.ready)
 		})
@@ -768,7 +778,7 @@ func (r *runner) execOp(t *rt.Task, op *Op) *OpResult {
 	}
 	res.Panics = r.w.TakePanics()
 	res.PostNotifs = r.w.NotifCount()
-	res.PostWrites = rt.JournalLen()
+	res.PostWrites = rt.JournalLenOf(".cdr")
 	return res
 }
 
